@@ -392,7 +392,7 @@ theorem hReshape_facts {cfg : Config} {db : DB R} {mv : Nat} {invs : List (RpInv
   · exact Or.inl ⟨hf.noIA, hbad⟩
   · right
     obtain ⟨n1, n2⟩ := resolveReshapeRps_ok hr hid hwf
-    have hrc2 : RcIdsNodup d2 := by simp only [RcIdsNodup, h2.2.2.2]; exact hrc
+    have hrc2 : RcIdsNodup d2 := by simp only [RcIdsNodup, h2.2.2.2.1]; exact hrc
     have facts := reshapeTxn_ok hs n1 (h2.invKeys hu) hrc2
     obtain ⟨p1, p2⟩ := allocObjectsAll_ok ho
     refine ⟨d2, d3, _, triples, objs, h2, h3, facts, n2, ht, ?_, p2⟩
